@@ -72,6 +72,8 @@ def check(ctx):
     check_cursor_use(ctx, ANCHOR_MODULES, floor=6)
     check_index_spaces(ctx)
     check_tiles(ctx, ANCHOR_MODULES, floor=8)
+    from .C05 import sweep_generic_rules
+    sweep_generic_rules(ctx, ANCHOR_MODULES)
 
 
 def check_parallel_pieces(ctx):
